@@ -142,7 +142,10 @@ int main(int argc, char **argv) {
     char *buf = (char *)malloc(raw.size() ? raw.size() : 1);
     memcpy(buf, raw.data(), raw.size());
     util::StringPiece arg(buf, raw.size());
-    if (t[0] == "D") {
+    if (t[0] == "C") {
+      util::DecodeUTF8Iterator none;   // value-initialised iterator reports kUnicodeError
+      std::cout << "kUnicodeError=" << util::kUnicodeError << " default_iterator=" << (uint32_t)*none << "\n";
+    } else if (t[0] == "D") {
       if (raw.empty()) { std::cout << "BAD\n"; free(buf); continue; }  // DecodeUTF8 presumes end > begin
       Cell c = RealDecode(buf, buf + raw.size());
       if (c.ok) std::cout << "OK " << c.cp << " " << c.len << "\n"; else std::cout << "BAD\n";
